@@ -110,6 +110,13 @@ Proof. intros H. apply first_invalid_none. apply is_digits_alpha. eapply ParseUi
 Lemma in_alpha_split n e s : in_alpha e s = in_alpha e (firstn n s) && in_alpha e (skipn n s).
 Proof. rewrite <- in_alpha_app, firstn_skipn. reflexivity. Qed.
 
+Lemma skipn_skipn' {A} (l : list A) : forall b a, skipn a (skipn b l) = skipn (b + a) l.
+Proof.
+  induction l as [|x l IH]; intros b a.
+  - rewrite !skipn_nil. reflexivity.
+  - destruct b as [|b]. reflexivity. cbn [skipn Nat.add]. apply IH.
+Qed.
+
 (* [n]byte conversion of a text of the right length *)
 Lemma arr_exact (s : bytes) n : length s = n -> firstn n (s ++ repeat 0 n) = s.
 Proof. intros <-. rewrite firstn_app, Nat.sub_diag, firstn_all. cbn [firstn]. apply app_nil_r. Qed.
@@ -256,6 +263,9 @@ Ltac eval_prefix :=
 
 Ltac atom_step :=
   match goal with
+  | |- context [Pos.to_nat ?p] => let n := eval compute in (Pos.to_nat p) in change (Pos.to_nat p) with n
+  | |- context [skipn ?a (skipn ?b ?l)] => rewrite (skipn_skipn' l b a); cbn [Nat.add]
+  | |- context [length (skipn ?n ?l)] => rewrite (skipn_length n l)
   | H : first_invalid ?e ?t = _ |- context [first_invalid ?e ?t] => rewrite H
   | H : ParseUint ?s ?b ?n = _ |- context [ParseUint ?s ?b ?n] => rewrite H
   | H : has_prefix ?a ?b = _ |- context [has_prefix ?a ?b] => rewrite H
@@ -271,8 +281,6 @@ Ltac atom_step :=
   | |- context [match ParseUint ?s ?b ?n with _ => _ end] => destruct (ParseUint s b n) eqn:?
   | |- context [is_digits ?s] => destruct (is_digits s) eqn:?
   | |- context [nil_b ?a] => destruct a
-  | |- context [length (skipn ?n ?l)] => rewrite (skipn_length n l)
-  | |- context [Pos.to_nat ?p] => let n := eval compute in (Pos.to_nat p) in change (Pos.to_nat p) with n
   end.
 Ltac crunch := repeat first [ progress cbn | progress unfold convert, assign, trim_prefix | progress unfold equals
                             | rewrite set_frag_S | rewrite set_frag_0 | atom_step ].
@@ -290,7 +298,7 @@ Ltac uint_alpha :=
   | H1 : ParseUint ?s 10 ?b = inl ?v, H2 : first_invalid EncHash ?s = Some _ |- _ =>
     rewrite (ParseUint10_alpha s b v H1) in H2; discriminate H2
   end.
-Ltac arr_fix := rewrite ?arr_exactZ by (cbn; lia).
+Ltac arr_fix := rewrite ?arr_exactZ by (rewrite ?skipn_length; cbn; lia).
 
 Ltac digits_alpha :=
   match goal with
